@@ -1,7 +1,7 @@
 """Which units / lemmas / Kani harnesses decide which property."""
 import importlib
 
-UNIT_MODULES = ['cbc', 'pcbc', 'ige', 'cfb', 'cfb8', 'ofb']
+UNIT_MODULES = ['cbc', 'pcbc', 'ige', 'cfb', 'cfb8', 'ofb', 'belt']
 
 
 def load_units(names=None):
@@ -16,6 +16,7 @@ def load_units(names=None):
 PROP_UNITS = {
     'C02': ['cbc', 'pcbc', 'ige'],
     'C03': ['cfb', 'cfb8', 'ofb'],
+    'C06': ['belt'],
 }
 
 
